@@ -63,6 +63,10 @@ func TestProgram(t *testing.T) {
 			pk.Discard("outside-model:" + tr.Outcome.Message)
 			return
 		}
+		if tr.Feat["hazard:slot-operand"] > 0 && pk.GateOpen("slot-operand") {
+			pk.Gate("slot-operand")
+			return
+		}
 		c := px.FromGenerated(g)
 		c.Expect = px.ExpOf(tr)
 		for k := range tr.Feat {
